@@ -499,7 +499,7 @@ where
 
 pub fn c06(ctx: &Ctx) {
 	let mut rep = Report::new("C06");
-	let rounds = ctx.budget(40, 1500);
+	let rounds = ctx.budget(400, 8000);
 	let mut job = 0usize;
 	let mut mine = |job: &mut usize| {
 		let m = *job % ctx.nshards == ctx.shard;
@@ -615,7 +615,7 @@ fn max_val(ty: &Ty, depth: u32) -> Option<Val> {
 
 pub fn c13(ctx: &Ctx) {
 	let mut rep = Report::new("C13");
-	let n = ctx.budget(600, 30_000);
+	let n = ctx.budget(4000, 100_000);
 	for ops in ctx.my_types() {
 		let fixed = ops.dec.as_ref().and_then(|d| (d.fixed)());
 		if ops.mel.is_none() && fixed.is_none() {
@@ -910,7 +910,7 @@ pub fn c15(ctx: &Ctx) {
 		finish(ctx, &rep);
 		return;
 	}
-	let rounds = ctx.budget(150, 6000);
+	let rounds = ctx.budget(1500, 30_000);
 	let mut job = 0usize;
 	macro_rules! items {
 		($($t:ty),*) => {$(
@@ -993,7 +993,18 @@ where
 	let ea = a.encode();
 	let mut s = &ea[..];
 	match catch(|| B::decode(&mut s).ok().map(|x| x.to_val())) {
-		Ok(Some(v)) if v == b.to_val() && s.is_empty() => rep.count("decoded_as_b"),
+		Ok(Some(v)) if v == b.to_val() && s.is_empty() => {
+			rep.count("decoded_as_b");
+			// and through the shared-buffer entry point
+			match catch(|| parity_scale_codec::decode_from_bytes::<B>(bytes::Bytes::from(ea.clone())).ok().map(|x| x.to_val())) {
+				Ok(Some(v2)) if v2 == v => rep.count("decoded_as_b_from_shared_buffer"),
+				other => rep.violation(
+					&format!("encode-like-decode-shared:{family}"),
+					format!("{family}: the bytes of A ({}) do not decode as B through decode_from_bytes: {:?}", hex(&ea[..ea.len().min(64)]), other.map(|o| o.map(|v| show_val(&v)))),
+					jobj(&[("property", jstr("C16")), ("family", jstr(family)), ("a", jstr(&hex(&ea)))]),
+				),
+			}
+		},
 		other => rep.violation(
 			&format!("encode-like-decode:{family}"),
 			format!("{family}: the bytes of A ({}) do not decode as B to the corresponding value: {:?}, {} bytes left", hex(&ea[..ea.len().min(64)]), other.map(|o| o.map(|v| show_val(&v))), s.len()),
@@ -1004,7 +1015,7 @@ where
 
 pub fn c16(ctx: &Ctx) {
 	let mut rep = Report::new("C16");
-	let n = ctx.budget(40, 1500);
+	let n = ctx.budget(1500, 30_000);
 	let mut rng = ctx.rng_for("c16");
 	for round in 0..n {
 		if round as usize % ctx.nshards != ctx.shard {
@@ -1042,6 +1053,9 @@ pub fn c16(ctx: &Ctx) {
 		like_dec("Bytes ~ Vec<u8>", &by, &v8, &mut rep);
 		like_dec("&[u8] ~ Bytes", &&v8[..], &by, &mut rep);
 		like_dec("Vec<u8> ~ Bytes", &v8, &by, &mut rep);
+		like_dec("(Vec<u8>, u32) ~ (Bytes, u32)", &(v8.clone(), x), &(by.clone(), x), &mut rep);
+		like_dec("(&[u8], Vec<u8>) ~ (Bytes, Bytes)", &(&v8[..], v8.clone()), &(by.clone(), by.clone()), &mut rep);
+		like_dec("Vec<Vec<u8>> ~ Vec<Bytes>", &vec![v8.clone(), v8.clone()], &vec![by.clone(), by.clone()], &mut rep);
 		// sequences
 		let vrefs: Vec<&String> = vs.iter().collect();
 		like_dec("Vec<T> ~ Vec<U>", &vrefs, &vs, &mut rep);
